@@ -521,6 +521,10 @@ def run_check(prop, tier, seed):
         },
         "assumptions": prop.assumptions, "wall_s": round(wall, 2), "violations": len(reported) if violations else (1 if exit_code else 0),
     }
+    if not br.ok:
+        # a broken build is reported through the exploration-style keys; the proof keys must not claim anything
+        cov = ev["coverage"]
+        cov["obligations_in_cone"] = cov.pop("obligations"); cov["obligations_discharged"] = cov.pop("discharged")
     os.makedirs(os.path.join(VERIF, "evidence"), exist_ok=True)
     with open(os.path.join(VERIF, "evidence", prop.id + ".json"), "w") as f: json.dump(ev, f, indent=1, default=str)
     for l in lines: print(l)
